@@ -26,6 +26,25 @@ def run(ctx):
     idxs = codec.choose_classes(len(cl), rng, None if thorough else 420, ctx.seed, cl)
     per = 24 if thorough else 6
     insts = codec.gen_instances(cl, idxs, per, rng)
+    # very long arrays (past the 16-bit mark): one non-flexible and one flexible class with an array of
+    # fixed-width integers, 32767 / 32768 / 40000 elements
+    import dataclasses as _dc
+    import os, sys
+    sys.path.insert(0, os.path.dirname(os.path.abspath(__file__)))
+    from c07 import widen_arrays
+    done = set()
+    for i, a, obj in list(insts):
+        c = cl.cls(i)
+        key = bool(c.__flexible__)
+        if key in done or not any(isinstance(getattr(obj, f.name), tuple) and f.metadata.get("kafka_type") in ("int32", "int64", "int16")
+                                  for f in _dc.fields(c)):
+            continue
+        done.add(key)
+        for nlen in ((32767, 32768) if not key else (32768,)):
+            w = widen_arrays(obj, nlen)
+            insts.append((i, values.abstract(w), w))
+        if len(done) == 2:
+            break
     tails = [b"", b"\x00", bytes(rng.getrandbits(8) for _ in range(5))]
     lines, meta = [], []
     fails, disagreements = [], []
